@@ -1145,11 +1145,8 @@ func TestVerifC14aStateMachine(t *testing.T) {
 		m := vc14Setup(t)
 		defer m.teardown()
 		actions := map[string]func(*rapid.T){"": m.check}
-		add := func(name string, weight int, f func(*rapid.T)) {
-			for i := 0; i < weight; i++ {
-				actions[fmt.Sprintf("%s#%d", name, i)] = f
-			}
-		}
+		// rapid picks action names (sorted) with a bias towards the first ones
+		// (about 3:1 between first and last), so the order below is the weighting.
 		rare := func(pct int, f func(*rapid.T)) func(*rapid.T) {
 			return func(t *rapid.T) {
 				if rapid.IntRange(0, 99).Draw(t, "gate") >= pct {
@@ -1158,23 +1155,39 @@ func TestVerifC14aStateMachine(t *testing.T) {
 				f(t)
 			}
 		}
-		add("runQueue", 6, m.actRunQueue)
-		add("sync", 4, m.actSync)
-		add("update", 4, m.actUpdate)
-		add("completeOp", 5, m.actCompleteOp)
-		add("instBoot", 2, m.actInstBoot)
-		add("instProbe", 1, m.actInstProbe)
-		add("instGone", 1, rare(40, m.actInstGone))
-		add("instBehavior", 1, rare(60, m.actInstBehavior))
-		add("procRunning", 2, m.actProcRunning)
-		add("procExit", 3, m.actProcExit)
-		add("procReported", 3, m.actProcReported)
-		add("procKilled", 2, m.actProcKilled)
-		add("procUnkillable", 1, rare(30, m.actProcUnkillable))
-		add("apiPriority", 1, m.actAPIPriority)
-		add("apiCancel", 1, rare(40, m.actAPICancel))
-		add("apiRequeue", 1, rare(40, m.actAPIRequeue))
-		add("quota", 1, rare(50, m.actQuota))
+		for i, a := range []struct {
+			name string
+			f    func(*rapid.T)
+		}{
+			{"runQueue", m.actRunQueue},
+			{"completeOp", m.actCompleteOp},
+			{"sync", m.actSync},
+			{"update", m.actUpdate},
+			{"procExit", m.actProcExit},
+			{"procReported", m.actProcReported},
+			{"runQueue", m.actRunQueue},
+			{"procRunning", m.actProcRunning},
+			{"procKilled", m.actProcKilled},
+			{"instBoot", m.actInstBoot},
+			{"completeOp", m.actCompleteOp},
+			{"sync", m.actSync},
+			{"update", m.actUpdate},
+			{"apiPriority", m.actAPIPriority},
+			{"instProbe", m.actInstProbe},
+			{"runQueue", m.actRunQueue},
+			{"procExit", m.actProcExit},
+			{"procReported", m.actProcReported},
+			{"instBehavior", rare(60, m.actInstBehavior)},
+			{"apiRequeue", rare(40, m.actAPIRequeue)},
+			{"apiCancel", rare(40, m.actAPICancel)},
+			{"instGone", rare(40, m.actInstGone)},
+			{"quota", rare(50, m.actQuota)},
+			{"procUnkillable", rare(30, m.actProcUnkillable)},
+			{"runQueue", m.actRunQueue},
+			{"sync", m.actSync},
+		} {
+			actions[fmt.Sprintf("%02d-%s", i, a.name)] = a.f
+		}
 		t.Repeat(actions)
 		m.failIfViolated(t)
 
